@@ -258,7 +258,7 @@ func (s *Star) SQL() string {
 }
 
 func (s *DotStar) SQL() string {
-	return s.Expr.SQL() + ".*" + sqlOpt(" ", s.Except, "") + sqlOpt(" ", s.Replace, "")
+	return s.Expr.SQL() + sqlDot(s.Expr) + "*" + sqlOpt(" ", s.Except, "") + sqlOpt(" ", s.Replace, "")
 }
 
 func (a *Alias) SQL() string {
@@ -456,7 +456,16 @@ func (b *BetweenExpr) SQL() string {
 
 func (s *SelectorExpr) SQL() string {
 	p := exprPrec(s)
-	return paren(p, s.Expr) + "." + s.Ident.SQL()
+	return paren(p, s.Expr) + sqlDot(s.Expr) + s.Ident.SQL()
+}
+
+// sqlDot returns the "." that follows e in a field access.
+// A decimal integer literal needs a blank, because "1.x" is lexed as the number "1." followed by "x".
+func sqlDot(e Expr) string {
+	if i, ok := e.(*IntLiteral); ok && i.Base == 10 {
+		return " ."
+	}
+	return "."
 }
 
 func (i *IndexExpr) SQL() string {
